@@ -37,6 +37,22 @@ class Spec:
             self._model = refpeg.Grammar(self.rules)
         return self._model
 
+    def isolated(self, rule, inputs):
+        """The same grammar with only `rule`, what it references, and the trivia rules."""
+        by_name = {r[0]: r for r in self.rules}
+        keep = {rule}
+        todo = [rule]
+        for t in ("WHITESPACE", "COMMENT"):
+            if t in by_name:
+                keep.add(t)
+                todo.append(t)
+        while todo:
+            for r in gast.refs(by_name[todo.pop()][2]):
+                if r in by_name and r not in keep:
+                    keep.add(r)
+                    todo.append(r)
+        return Spec([r for r in self.rules if r[0] in keep], (rule,), inputs, self.kmode, self.family)
+
     def cases(self):
         for rule in self.starts:
             for text in self.inputs:
@@ -54,6 +70,7 @@ class Check:
     modes = modes.MODES
     need_model = False
     max_failures_per_chunk = 400
+    isolate = True
     watchdog_s = 20
 
     def observe(self, parser, mode, spec, rule, text, k):
@@ -167,11 +184,53 @@ def _worker(rng):
                     stats["impl_fail"] += 1
         before = len(out)
         check.judge(spec, tabs[i], model_obs, out)
+        if len(out) > before and len(spec.starts) > 1 and check.isolate:
+            out[before:] = _isolate(check, spec, out[before:])
         stats["failures"] += len(out) - before
         check.collect(spec, tabs[i], model_obs, extra)
     total_failures = len(out)
     out.sort(key=lambda c: (len(c["grammar"]), len(c["input"]), c["grammar"], c["input"], c["mode"]))
     return stats, out[: check.max_failures_per_chunk], total_failures, extra
+
+
+def _isolate(check, spec, fails):
+    """Re-run failing cases of a batched grammar on the grammar reduced to the one start rule."""
+    by_rule: dict = {}
+    for c in fails:
+        by_rule.setdefault(c["rule"], []).append(c)
+    res = []
+    for rule, cs in by_rule.items():
+        if not rule or len(res) > 60:
+            res.extend(cs)
+            continue
+        iso = spec.isolated(rule, sorted({c["input"] for c in cs}))
+        tab: dict = {}
+        dummy = {"evaluations": 0}
+        sub: list = []
+        try:
+            iu = modes.build(iso.text, "IU") if ("IU" in check.modes or "GU" in check.modes) else None
+            if "IU" in check.modes:
+                _observe_all(check, iu, "IU", iso, tab, dummy)
+            if "GU" in check.modes:
+                _observe_all(check, modes.Generated(iu.generate()), "GU", iso, tab, dummy)
+            io = modes.build(iso.text, "IO") if ("IO" in check.modes or "GO" in check.modes) else None
+            if "IO" in check.modes:
+                _observe_all(check, io, "IO", iso, tab, dummy)
+            if "GO" in check.modes:
+                _observe_all(check, modes.Generated(io.generate()), "GO", iso, tab, dummy)
+            model_obs = None
+            if check.need_model:
+                model_obs = {key: refpeg.observe(iso.model, *key) for key in iso.cases()}
+            check.judge(iso, tab, model_obs, sub)
+        except Exception:  # noqa: BLE001
+            sub = []
+        got = {(c["input"], c["start_pos"], c["mode"]) for c in sub}
+        res.extend(sub)
+        for c in cs:
+            if (c["input"], c["start_pos"], c["mode"]) not in got:
+                c["batched_only"] = True  # fails only in the presence of the other rules of the batch
+                res.append(c)
+    return res
 
 
 def _default_collect(self, spec, tab, model_obs, extra):
@@ -181,11 +240,14 @@ def _default_collect(self, spec, tab, model_obs, extra):
 Check.collect = _default_collect
 
 
-def run(check: Check, specs: list, chunk: int = 150):
+def run(check: Check, specs: list, chunk: int | None = None):
     """Evaluate all specs; returns (stats, failures, total_failures, extras list)."""
     global _SPECS, _CHECK
     _SPECS, _CHECK = specs, check
     n = len(specs)
+    if chunk is None:
+        # enough chunks to balance 16 workers, few enough that forking stays cheap
+        chunk = max(1, min(150, -(-n // (common.workers() * 6))))
     ranges = [(a, min(n, a + chunk)) for a in range(0, n, chunk)]
     t0 = time.time()
     results = common.parallel_map(_worker, ranges, fresh=True, order_seed=common.seed())
